@@ -81,6 +81,7 @@ class Run:
         self.sim.server = self.server
         self.clients = {}
         self.channels = {}
+        self.req_objects = {}
 
     # ------------------------------------------------------------------ helpers
     def request_desc(self, op):
@@ -265,6 +266,13 @@ def _sync_unary(run, client, op):
     except Exception as e:  # noqa
         run.sim.ev("raise", op=op["id"], **exc_info(e))
         return
+    _unary_return(run, op, resp)
+
+
+def _unary_return(run, op, resp):
+    if resp is not None and hasattr(type(resp), "pages") and not hasattr(type(resp), "pb"):
+        run.sim.ev("return", op=op["id"], value=None, cls=type(resp).__name__, pager=True)
+        return
     b, cls = to_bytes(resp)
     run.sim.ev("return", op=op["id"], value=None if b is None else b.hex(), cls=cls)
 
@@ -281,12 +289,144 @@ async def _async_unary(run, client, op):
     except Exception as e:  # noqa
         run.sim.ev("raise", op=op["id"], **exc_info(e))
         return
-    b, cls = to_bytes(resp)
-    run.sim.ev("return", op=op["id"], value=None if b is None else b.hex(), cls=cls)
+    _unary_return(run, op, resp)
 
 
-SYNC_EXEC = {"unary": _sync_unary}
-ASYNC_EXEC = {"unary": _async_unary}
+def norm_item(x):
+    """JSON-able form of something a pager/stream yielded."""
+    if isinstance(x, tuple):
+        return {"pair": [norm_item(x[0]), norm_item(x[1])]}
+    if isinstance(x, bytes):
+        return {"__b": x.hex()}
+    if isinstance(x, (str, int, float, bool)) and not hasattr(x, "name"):
+        return x
+    if hasattr(x, "name") and hasattr(x, "value") and isinstance(x, int):   # proto-plus enum
+        return int(x)
+    b, cls = to_bytes(x)
+    return {"msg": b.hex(), "cls": cls}
+
+
+def _reuse_request(run, op, kwargs):
+    """'reuse_of': submit the very same request OBJECT that another op used (legal caller
+    behaviour); otherwise remember this op's request object."""
+    if op.get("reuse_of") is not None and op["reuse_of"] in run.req_objects:
+        kwargs["request"] = run.req_objects[op["reuse_of"]]
+    elif "request" in kwargs:
+        run.req_objects[op["id"]] = kwargs["request"]
+
+
+def _read_attrs(run, op, pager):
+    for name in op.get("read_attrs") or []:
+        try:
+            v = getattr(pager, name)
+            run.sim.ev("attr", op=op["id"], name=name, value=norm_item(v) if not hasattr(v, "__len__") or isinstance(v, (str, bytes)) else len(v))
+        except Exception as e:  # noqa
+            run.sim.ev("attr", op=op["id"], name=name, error=type(e).__name__)
+
+
+def _sync_paged(run, client, op):
+    fn = client_method(client, op["method"])
+    args, kwargs = run.build_call(op, False)
+    _reuse_request(run, op, kwargs)
+    _invoke_ev(run, op)
+    try:
+        pager = fn(*args, **kwargs)
+        run.sim.ev("pager", op=op["id"], cls=type(pager).__name__, has_pages=hasattr(type(pager), "pages"))
+        if not hasattr(type(pager), "pages"):
+            b, cls = to_bytes(pager)
+            run.sim.ev("return", op=op["id"], value=b.hex(), cls=cls)
+            return
+        n = 0
+        nested = op.get("nested")
+        if op.get("consume") == "pages":
+            for page in pager.pages:
+                b, cls = to_bytes(page)
+                run.sim.ev("page", op=op["id"], value=b.hex(), cls=cls)
+                n += 1
+                if nested and nested["after"] == n:
+                    _run_nested_sync(run, client, nested["op"])
+                if op.get("stop_after") == n:
+                    break
+        else:
+            if nested and nested["after"] == 0:
+                _run_nested_sync(run, client, nested["op"])
+            for item in pager:
+                run.sim.ev("item", op=op["id"], value=norm_item(item))
+                n += 1
+                if nested and nested["after"] == n:
+                    _run_nested_sync(run, client, nested["op"])
+                if op.get("stop_after") == n:
+                    break
+        _read_attrs(run, op, pager)
+    except Exception as e:  # noqa
+        run.sim.ev("raise", op=op["id"], **exc_info(e))
+        return
+    run.sim.ev("return", op=op["id"], value=None, cls=None)
+
+
+def _run_nested_sync(run, client, op):
+    tok = CURRENT_OP.set(op["id"])
+    try:
+        SYNC_EXEC[op["kind"]](run, client, op)
+    finally:
+        CURRENT_OP.reset(tok)
+
+
+async def _run_nested_async(run, client, op):
+    tok = CURRENT_OP.set(op["id"])
+    try:
+        await ASYNC_EXEC[op["kind"]](run, client, op)
+    finally:
+        CURRENT_OP.reset(tok)
+
+
+async def _async_paged(run, client, op):
+    fn = client_method(client, op["method"])
+    args, kwargs = run.build_call(op, True)
+    _reuse_request(run, op, kwargs)
+    _invoke_ev(run, op)
+    try:
+        pager = await fn(*args, **kwargs)
+        run.sim.ev("pager", op=op["id"], cls=type(pager).__name__, has_pages=hasattr(type(pager), "pages"))
+        if not hasattr(type(pager), "pages"):
+            b, cls = to_bytes(pager)
+            run.sim.ev("return", op=op["id"], value=b.hex(), cls=cls)
+            return
+        n = 0
+        nested = op.get("nested")
+        if op.get("consume") == "pages":
+            async for page in pager.pages:
+                b, cls = to_bytes(page)
+                run.sim.ev("page", op=op["id"], value=b.hex(), cls=cls)
+                n += 1
+                if nested and nested["after"] == n:
+                    await _run_nested_async(run, client, nested["op"])
+                if op.get("stop_after") == n:
+                    break
+        else:
+            if nested and nested["after"] == 0:
+                await _run_nested_async(run, client, nested["op"])
+            async for item in pager:
+                run.sim.ev("item", op=op["id"], value=norm_item(item))
+                n += 1
+                if op.get("think"):
+                    await asyncio.sleep(op["think"])
+                if nested and nested["after"] == n:
+                    await _run_nested_async(run, client, nested["op"])
+                if op.get("stop_after") == n:
+                    break
+        _read_attrs(run, op, pager)
+    except asyncio.CancelledError:
+        run.sim.ev("cancelled", op=op["id"])
+        raise
+    except Exception as e:  # noqa
+        run.sim.ev("raise", op=op["id"], **exc_info(e))
+        return
+    run.sim.ev("return", op=op["id"], value=None, cls=None)
+
+
+SYNC_EXEC = {"unary": _sync_unary, "paged": _sync_paged}
+ASYNC_EXEC = {"unary": _async_unary, "paged": _async_paged}
 
 
 # ---------------------------------------------------------------------- default scripted server
